@@ -34,7 +34,8 @@ Proof. apply list_eqb_eq. exact sref_eqb_eq. Qed.
 
 Lemma obj_eqb_eq a b : obj_eqb a b = true <-> a = b.
 Proof.
-  destruct a, b; cbn; try rewrite Nat.eqb_eq; try rewrite Z.eqb_eq; split; try congruence; auto.
+  destruct a, b; cbn; try rewrite Nat.eqb_eq; try rewrite Z.eqb_eq; try rewrite gname_eqb_eq;
+    split; try congruence; auto.
 Qed.
 
 Lemma assoc_key_In k l p : assoc_key k l = Some p -> In (k, p) l.
@@ -110,7 +111,7 @@ Qed.
 Lemma wf_iface w i : wf_globals w = true -> i < List.length (w_ifaces w) ->
   lookup_global w (iname w i) = Some (OIface i).
 Proof.
-  unfold wf_globals. rewrite andb_true_iff. intros [H _] Hi.
+  unfold wf_globals. rewrite !andb_true_iff. intros [[H _] _] Hi.
   rewrite forallb_forall in H. specialize (H i). rewrite in_seq in H.
   assert (G : option_eqb obj_eqb (lookup_global w (iname w i)) (Some (OIface i)) = true) by (apply H; lia).
   destruct (lookup_global w (iname w i)) as [x|]; cbn in G; [|discriminate].
@@ -120,7 +121,7 @@ Qed.
 Lemma wf_class w c : wf_globals w = true -> c < List.length (w_classes w) ->
   lookup_global w (cname w c) = Some (OClass c).
 Proof.
-  unfold wf_globals. rewrite andb_true_iff. intros [_ H] Hc.
+  unfold wf_globals. rewrite !andb_true_iff. intros [[_ H] _] Hc.
   rewrite forallb_forall in H. specialize (H c). rewrite in_seq in H.
   assert (G : option_eqb obj_eqb (lookup_global w (cname w c)) (Some (OClass c)) = true) by (apply H; lia).
   destruct (lookup_global w (cname w c)) as [x|]; cbn in G; [|discriminate].
@@ -133,6 +134,25 @@ Lemma wf_ifaces w is : wf_globals w = true ->
 Proof.
   intros W. induction is as [|i is IH]; cbn [map forallb]; [reflexivity|].
   rewrite andb_true_iff, Nat.ltb_lt. intros [Hi H]. rewrite (wf_iface w i W Hi), IH by exact H. reflexivity.
+Qed.
+
+Lemma assoc_nat_In {A} c (l : list (nat * A)) v : assoc_nat c l = Some v -> In (c, v) l.
+Proof.
+  induction l as [|[k x] l IH]; cbn; [discriminate|]. destruct (Nat.eqb c k) eqn:E.
+  - intros H; inversion H; subst. apply Nat.eqb_eq in E; subst. auto.
+  - auto.
+Qed.
+
+(* the metaclass argument of a ClassProvides resolves to a metaclass object *)
+Lemma wf_meta w c : wf_globals w = true ->
+  exists g m, meta_ref w c = ByName g /\ lookup_global w g = Some m /\ is_metaclass m = true.
+Proof.
+  intros W. unfold meta_ref. destruct (assoc_nat c (w_meta w)) as [g|] eqn:E.
+  - exists g, (OMeta g). split; [reflexivity|]. split; [|reflexivity].
+    unfold wf_globals in W. rewrite !andb_true_iff in W. destruct W as [_ H].
+    rewrite forallb_forall in H. specialize (H _ (assoc_nat_In _ _ _ E)). cbn [snd] in H.
+    destruct (lookup_global w g) as [x|]; cbn in H; [|discriminate]. apply obj_eqb_eq in H. congruence.
+  - exists g_type, OType. repeat split.
 Qed.
 
 Lemma ids_ok_split w c is : ids_ok w c is = true ->
@@ -239,7 +259,9 @@ Definition impl_inv (st : state) : Prop :=
   forall c r, assoc_nat c (st_impl st) = Some r -> good c r.
 
 Lemma good_default w c : good c (default_impl w c).
-Proof. split; [reflexivity|right; reflexivity]. Qed.
+Proof.
+  unfold default_impl. destruct (assoc_nat c (w_oldstyle w)); split; try reflexivity; [left|right]; reflexivity.
+Qed.
 
 Lemma get_impl_good w st c : impl_inv st -> good c (get_impl w st c).
 Proof.
@@ -833,9 +855,6 @@ Proof.
   apply IH. apply step_cprov_inv; assumption.
 Qed.
 
-Lemma lookup_type w : lookup_global w g_type = Some OType.
-Proof. reflexivity. Qed.
-
 Lemma rebuild_cprov fuel w st qr :
   wf_globals w = true -> ids_ok w (cp_cls qr) (cp_ifaces qr) = true ->
   rebuild fuel w st (reduce_cprov w qr) =
@@ -843,16 +862,20 @@ Lemma rebuild_cprov fuel w st qr :
    Some (OCProv (List.length (st_cprovs (implementedBy fuel w st (cp_cls qr)))))).
 Proof.
   intros W I. destruct (ids_ok_split _ _ _ I) as [Hc Hi].
-  unfold reduce_cprov. rewrite rebuild_Call.
+  destruct (wf_meta w (cp_cls qr) W) as (g & m & Eg & Lg & Mm).
+  unfold reduce_cprov. fold (meta_ref w (cp_cls qr)). unfold type_ref in Eg.
+  replace (match assoc_nat (cp_cls qr) (w_meta w) with Some g0 => ByName g0 | None => ByName g_type end)
+    with (ByName g) by (unfold meta_ref, type_ref in Eg; symmetry; exact Eg).
+  rewrite rebuild_Call.
   rewrite <- (map_map (iname w) ByName).
-  change (ByName (cname w (cp_cls qr)) :: ByName g_type :: map ByName (map (iname w) (cp_ifaces qr)))
-    with (map ByName (cname w (cp_cls qr) :: g_type :: map (iname w) (cp_ifaces qr))).
+  change (ByName (cname w (cp_cls qr)) :: ByName g :: map ByName (map (iname w) (cp_ifaces qr)))
+    with (map ByName (cname w (cp_cls qr) :: g :: map (iname w) (cp_ifaces qr))).
   rewrite rebuild_list_names. cbn [map]. rewrite wf_class by assumption. rewrite wf_ifaces by assumption.
-  rewrite lookup_type. unfold apply_fn.
-  replace (Some (OClass (cp_cls qr)) :: Some OType :: map (fun i => Some (OIface i)) (cp_ifaces qr))
-    with (map (fun x : obj => Some x) (OClass (cp_cls qr) :: OType :: map OIface (cp_ifaces qr)))
+  rewrite Lg. unfold apply_fn.
+  replace (Some (OClass (cp_cls qr)) :: Some m :: map (fun i => Some (OIface i)) (cp_ifaces qr))
+    with (map (fun x : obj => Some x) (OClass (cp_cls qr) :: m :: map OIface (cp_ifaces qr)))
     by (cbn [map]; rewrite map_map; reflexivity).
-  rewrite all_some_Some. rewrite map_as_iface, all_some_Some. reflexivity.
+  rewrite all_some_Some. rewrite Mm. rewrite map_as_iface, all_some_Some. reflexivity.
 Qed.
 
 Lemma classprovides_roundtrip fuel w ops q qr :
@@ -960,9 +983,8 @@ Proof. apply gname_eqb_eq; reflexivity. Qed.
 
 Lemma py_eq_refl w x : py_eq w x x = true.
 Proof.
-  destruct x; cbn [py_eq obj_eqb]; try reflexivity; try apply Nat.eqb_refl.
-  - apply gname_eqb_refl.
-  - apply Z.eqb_refl.
+  destruct x; cbn [py_eq obj_eqb]; try reflexivity; try apply Nat.eqb_refl;
+    try apply gname_eqb_refl; apply Z.eqb_refl.
 Qed.
 
 Lemma roundtrip_eq_hash fuel w ops :
